@@ -171,9 +171,14 @@ func c12BusyBroker(r *ev.Result) {
 	ri := mk(hworld.Get("/i/k", addr))
 	ro := mk("POST /o/k HTTP/1.1\r\nHost: x\r\nTransfer-Encoding: chunked\r\n\r\n")
 	time.Sleep(300 * time.Millisecond)
-	/* The slow listener catches up. */
+	/* The slow listener catches up, and keeps up from now on (it must never
+	again hold the broker's listener set locked, whatever is delivered to
+	it). */
 	<-slow
-	b.RemoveEventListener(slow)
+	go func() {
+		for range slow {
+		}
+	}()
 	i, o := <-ri, <-ro
 	if nil != i.err || nil != o.err {
 		c12Viol(r, "busy-broker/no-connect", fmt.Sprintf("the shell's streams could not connect: %v %v", i.err, o.err))
